@@ -1,6 +1,7 @@
 #ifndef PYL_HPP
 #define PYL_HPP
 #include <string>
+#include <vector>
 int add(int a, int b);
 double scale(double x, int times = 1, bool neg = false);
 bool isPositive(long v);
@@ -18,6 +19,7 @@ int toggle(bool flag, int n = 1, int m = 2);
 int divide(int num, int *rem, int den = 10, bool neg = false);
 void fill2(int nrow, int ncol, double *out);
 int *getRow(int n);
+int vsum(const std::vector<int> &v);
 long isum(const int *v, int n);
 int total(const int *v, int n);
 double total(const double *v, int n);
